@@ -701,7 +701,30 @@ def replay_selection(model, obligation, micro):
             if got != want or [list(r) for r in out] != cands[want]:
                 return dict(confirmed=True, call='find_and_apply_best_mask(<random v%s symbol>)' % iso.version_name(version),
                             detail='returned pattern %r, scores of the candidates %r' % (got, scores))
-    return dict(confirmed=False, detail='selection agrees with first-best on 200 random symbols')
+    # forced ties: the evaluation function is replaced by a table that depends only on WHICH candidate is scored, so that several patterns share the best score
+    # (random symbols rarely tie); the selection rule alone is under test (lowest-numbered among the best)
+    name = 'evaluate_micro_mask' if micro else 'evaluate_mask'
+    real_eval = getattr(encoder, name)
+    tables = ([[4, 9, 9, 1], [7, 7, 7, 7], [1, 2, 8, 8]] if micro else
+              [[5, 3, 3, 7, 3, 9, 9, 9], [4, 4, 4, 4, 4, 4, 4, 4], [9, 8, 7, 6, 5, 4, 3, 3], [2, 9, 9, 9, 9, 9, 9, 2]])
+    try:
+        for version in ((iso.M2, iso.M4) if micro else (1, 2)):
+            size = iso.symbol_size(version)
+            fill = [rnd.randrange(2) for _ in range(257)]
+            base, cands = _candidates(version, fill)
+            for tab in tables:
+                def stub(matrix, *a, **k):
+                    m = [list(r) for r in matrix]
+                    return tab[cands.index(m)] if m in cands else 10 ** 6
+                setattr(encoder, name, stub)
+                want = tab.index(max(tab)) if micro else tab.index(min(tab))
+                got, out = encoder.find_and_apply_best_mask(tuple(bytearray(r) for r in base), size, size)
+                if got != want or [list(r) for r in out] != cands[want]:
+                    return dict(confirmed=True, call='find_and_apply_best_mask(<v%s symbol>) with candidate scores %r' % (iso.version_name(version), tab),
+                                detail='returned pattern %r; the lowest-numbered pattern with the best score is %r' % (got, want))
+    finally:
+        setattr(encoder, name, real_eval)
+    return dict(confirmed=False, detail='selection agrees with first-best on 200 random symbols and on forced ties')
 
 
 def replay_micro_score(model, obligation, version):
